@@ -171,8 +171,8 @@ PIPE_ASSUME = ["MaxBufferedRows > 0 (config validation rejects 0)", "liveness cl
 
 prop(
     "C05",
-    lean_modules=["BloomVerif.Lemmas.Pipeline", "BloomVerif.Props.C05"],
-    technique="Lean 4 proof (inductive invariants over all event sequences of the pipeline LTS: conservation, at-most-once, graceful stop) + trace validation of recorded engine runs against the LTS + implementation monitors",
+    lean_modules=["BloomVerif.Lemmas.Pipeline", "BloomVerif.Bridge.ChanHelpers", "BloomVerif.Props.C05", "BloomVerif.Props.C05Gen"],
+    technique="Lean 4 proof (inductive invariants over all event sequences of the pipeline LTS: conservation, at-most-once, graceful stop), with the acknowledgement senders of chan_helpers.go regenerated and proved to send at most once, truthfully, to every waiter (Bridge/ChanHelpers) + trace validation of recorded engine runs against the LTS + implementation monitors",
     design_ref="DESIGN.md section 4 C05",
     text="Machine-checked over every event sequence of the pipeline LTS (any interleaving of callers, actor, flush worker, store outcomes, Start, Stop with or without deadline, never-started engines): every accepted batch is answered or sits in exactly one pipeline stage "
          "(conservation), none is answered twice, and once Stop has returned nil every accepted batch has been answered. The safety part is a proof; 'the caller keeps receiving' is liveness and is monitored. Recorded hook-event traces of randomised and "
